@@ -1,4 +1,5 @@
 import LinfaSpec.Proofs.Metrics
+import LinfaSpec.Proofs.MetricsRoc
 
 /-!
 # C05 — every evaluation metric equals its definition recomputed from first principles
@@ -358,5 +359,81 @@ theorem explained_variance_partial (a b : List α)
 example : meanS (subL [1, 3, (2 : Rat)] [2, 1, 3]) = some 0 := by decide +kernel
 
 end Regression
+
+section Roc
+variable {α : Type} [Field α] [LinearOrder α] [IsStrictOrderedRing α]
+
+/-- the curve computed by `roc` (repaired code: group marker initially `None`), spelled out -/
+theorem roc_curve_eq (eps : α) (samples : List (α × Bool)) (hnn : ∀ x ∈ samples, 0 ≤ x.1) :
+    (roc eps none samples).1 =
+      let st := (sortByScore samples).foldl (rocStep eps) { tp := 0, fp := 0, s0 := none, pts := [], thr := [] }
+      (st.pts ++ [(st.tp, st.fp)]).map fun p => (p.1 / st.tp, p.2 / st.fp) := by
+  have hf : samples.filter (fun x => decide ((0 : α) ≤ x.1)) = samples :=
+    List.filter_eq_self.mpr (fun x hx => by simpa using hnn x hx)
+  simp only [roc, rocRaw, hf]
+
+/-- **the ROC curve starts at (0,0) and ends at (1,1)** whenever both classes are present -/
+theorem roc_ends (eps : α) (samples : List (α × Bool)) (hnn : ∀ x ∈ samples, 0 ≤ x.1)
+    (hpos : countPos samples ≠ 0) (hneg : countNeg samples ≠ 0) :
+    (roc eps none samples).1.head? = some (0, 0) ∧ (roc eps none samples).1.getLast? = some (1, 1) := by
+  rw [roc_curve_eq eps samples hnn]
+  have hperm := perm_sortByScore samples
+  obtain ⟨htp, hfp⟩ := rocFold_counts eps (sortByScore samples) { tp := 0, fp := 0, s0 := none, pts := [], thr := [] }
+  simp only [zero_add] at htp hfp
+  rw [posSum_perm hperm, ← countPos_eq] at htp
+  rw [negSum_perm hperm, ← countNeg_eq] at hfp
+  simp only
+  rw [htp, hfp]
+  constructor
+  · cases hl : sortByScore samples with
+    | nil =>
+      exfalso
+      have : samples = [] := by simpa [hl] using hperm.symm
+      subst this; simp [countPos, sumS] at hpos
+    | cons x xs =>
+      simp only [List.foldl_cons]
+      have hfr : isFresh eps (none : Option α) x.1 = true := rfl
+      rw [rocStep_fresh eps _ x hfr]
+      obtain ⟨e, he⟩ := rocStep_pts_prefix eps xs
+        (if x.2 then { tp := 0 + 1, fp := 0, s0 := some x.1, pts := [] ++ [((0 : α), (0 : α))], thr := [] ++ [x.1] }
+         else { tp := 0, fp := 0 + 1, s0 := some x.1, pts := [] ++ [((0 : α), (0 : α))], thr := [] ++ [x.1] })
+      rw [he]
+      split <;> simp
+  · simp [div_self hpos, div_self hneg]
+
+example : (roc (0 : Rat) none [(0, true), (0, false), (1/2, false), (1, true)]).1 =
+    [(0, 0), (1/2, 1/2), (1/2, 1), (1, 1)] := by decide +kernel
+
+/-- **ROC AUC equals the Mann-Whitney rank statistic with ties counted one half.**
+Hypotheses: scores are non-negative (the code drops negative ones), both classes occur (the code
+divides by the class totals), and two *distinct* scores differ by more than the grouping threshold
+`eps = 1e-10` (closer scores are merged by the code; documented limit). -/
+theorem auc_eq_mannWhitney (eps : α) (heps : 0 ≤ eps) (samples : List (α × Bool))
+    (hnn : ∀ x ∈ samples, 0 ≤ x.1)
+    (hsep : ∀ x ∈ samples, ∀ y ∈ samples, x.1 ≠ y.1 → eps < |x.1 - y.1|) :
+    auc eps none samples = mannWhitney samples := by
+  unfold auc
+  rw [roc_curve_eq eps samples hnn, trapezoid_eq_trapR]
+  have hperm := perm_sortByScore samples
+  have inv := rocInv_foldl eps heps (sortByScore samples) (sorted_sortByScore samples)
+    (fun x hx y hy => hsep x (hperm.mem_iff.mp hx) y (hperm.mem_iff.mp hy))
+  simp only
+  rw [trapR_scale, mannWhitney_perm hperm.symm]
+  unfold mannWhitney
+  rw [countPos_eq, countNeg_eq, ← inv.tp_eq, ← inv.fp_eq, ← inv.area]
+  rw [mul_div_mul_left _ _ (two_ne_zero)]
+
+example : auc (0 : Rat) none [(0, true), (0, false), (1/2, false), (1, true)] = 5 / 8 ∧
+    mannWhitney [((0 : Rat), true), (0, false), (1/2, false), (1, true)] = 5 / 8 := by
+  refine ⟨by decide +kernel, by decide +kernel⟩
+
+/-- the defect that was repaired: with the original sentinel `s0 = 0.0` the curve of the same four
+samples does not start at the origin and the area is 1/2, not the Mann-Whitney value 5/8 -/
+theorem roc_sentinel_defect :
+    (roc (0 : Rat) (some 0) [(0, true), (0, false), (1/2, false), (1, true)]).1 = [(1/2, 1/2), (1/2, 1), (1, 1)] ∧
+    auc (0 : Rat) (some 0) [(0, true), (0, false), (1/2, false), (1, true)] = 1 / 2 := by
+  refine ⟨by decide +kernel, by decide +kernel⟩
+
+end Roc
 
 end LinfaSpec.Props.C05
